@@ -266,6 +266,16 @@ impl FileReader for IOFileReader {
                 .to_owned()
         };
 
+        // A file is read at most once. Every import gets a fresh UUID, so the
+        // files have to be compared by the location they resolve to. This is
+        // also what stops a file that includes itself, directly or through
+        // other files, from being read forever.
+        let resolve = |p: &str| std::fs::canonicalize(p).unwrap_or_else(|_| PathBuf::from(p));
+        let resolved = resolve(&path);
+        if self.files.values().any(|(known, _)| resolve(known) == resolved) {
+            return Err(FileReaderError::FileAlreadyRead(path));
+        }
+
         // open file and read it
         let file = match std::fs::read_to_string(path.clone()) {
             Ok(file) => file,
@@ -275,13 +285,7 @@ impl FileReader for IOFileReader {
         // store full path to file
         let uuid = uuid::Uuid::new_v4();
         self.base_file.get_or_insert(uuid);
-        if self
-            .files
-            .insert(uuid, (path.clone(), file.clone()))
-            .is_some()
-        {
-            return Err(FileReaderError::FileAlreadyRead(path));
-        }
+        self.files.insert(uuid, (path.clone(), file.clone()));
 
         Ok((uuid, file))
     }
